@@ -249,8 +249,14 @@ def parse_cbmc_json(path, r):
     r["checks"] = checks
     r["covers"] = covers
     r["functions"] = sorted(funcs)
-    r["status"] = "done"
     r["cprover_status"] = status
+    undecided = [x for x in results if x.get("status") not in ("SUCCESS", "FAILURE")]
+    if undecided or errors:
+        # e.g. "Solver ran out of memory during propositional reduction": nothing was decided
+        r["status"] = "error"
+        r["detail"] = "cbmc left %d checks undecided; messages: %s" % (len(undecided), "; ".join(errors[:3]))
+    else:
+        r["status"] = "done"
 
 
 def extract_inputs(trace):
@@ -279,7 +285,10 @@ def is_failure(c):
 
 def schedule(jobs, run_dir, built, max_par=16, mem_budget_gb=52):
     """jobs: list of (name, timeout_s, mem_gb). Runs them with a worker pool bounded by
-    core count and by the sum of memory caps."""
+    core count and by a memory budget. mem_gb is the hard address-space cap of the cbmc
+    process; measured peaks are far below the caps (0.3-3 GB), so a job is budgeted at a
+    third of its cap (16 jobs with the default 8 GB cap fit the 52 GB budget)."""
+    jobs = [(n, t, m) for (n, t, m) in jobs]
     results = {}
     lock = threading.Condition()
     state = {"mem": 0.0, "running": 0}
@@ -294,7 +303,7 @@ def schedule(jobs, run_dir, built, max_par=16, mem_budget_gb=52):
                    "covers": [], "functions": [], "stats": {}}
         with lock:
             results[name] = res
-            state["mem"] -= mem_gb
+            state["mem"] -= mem_gb / 3.0
             state["running"] -= 1
             lock.notify_all()
         fails = sum(1 for c in res["checks"] if is_failure(c))
@@ -305,10 +314,10 @@ def schedule(jobs, run_dir, built, max_par=16, mem_budget_gb=52):
     threads = []
     for (name, timeout_s, mem_gb) in order:
         with lock:
-            while state["running"] >= max_par or (state["running"] > 0 and state["mem"] + mem_gb > mem_budget_gb):
+            while state["running"] >= max_par or (state["running"] > 0 and state["mem"] + mem_gb / 3.0 > mem_budget_gb):
                 lock.wait()
             state["running"] += 1
-            state["mem"] += mem_gb
+            state["mem"] += mem_gb / 3.0
         t = threading.Thread(target=worker, args=(name, timeout_s, mem_gb))
         t.start()
         threads.append(t)
